@@ -106,6 +106,96 @@ theorem C38_redo_count_bound (v : Variant) (w : World) (e : Exch) (ops : List Op
     e.redoTimer.start + e.redoTimeout * ((i : Int) + 1) ≤ (redoStamps (run v w ops).2)[i] :=
   Spaced_nth _ _ (C38_redo_spacing v w e ops hw hwf hp) i h
 
+/-- **Once each time the redo interval elapses, exactly**: an exchange whose redo interval `R > 0`
+was (re)started at `s`, with a message to send and no timeout in reach, polled at every tick,
+retransmits at exactly the stamps `x` with `R ∣ x - s` — `s + R, s + 2R, …` — and at no other. -/
+theorem C38_redo_exact_when_polled (v : Variant) (s : Int) (m : Nat) (n : Nat) : ∀ (w : World) (e : Exch),
+    w.ex = some e → WFr e → 0 < e.redoTimeout → e.tx = some m →
+    e.redoTimer.start = w.stamp - (w.stamp - s) % e.redoTimeout →
+    (e.timeout ≤ 0 ∨ w.stamp + n < e.timer.stop) →
+    redoStamps (run v w (poll n)).2 = (pollStamps w.stamp n).filter (fun x => (x - s) % e.redoTimeout == 0) := by
+  induction n with
+  | zero => intro w e _ _ _ _ _ _; rfl
+  | succ n ih =>
+    intro w e hw hwf hR htx hst hT
+    have hmod := Int.emod_nonneg (w.stamp - s) (show e.redoTimeout ≠ 0 by omega)
+    have hlt := Int.emod_lt_of_pos (w.stamp - s) hR
+    -- the world after the tick
+    let w1 : World := { w with stamp := w.stamp + 1 }
+    have hw1 : w1.ex = some e := hw
+    have hnoT : ¬ (0 < e.timeout ∧ e.timer.stop ≤ w1.stamp) := by
+      intro ⟨a, b⟩
+      have : w1.stamp = w.stamp + 1 := rfl
+      rcases hT with h | h <;> omega
+    have hrun : run v w (poll (n + 1)) =
+        ((run v (step v w1 .process).1 (poll n)).1,
+          ⟨.advance 1, w.stamp, ⟨[], none⟩⟩ :: ⟨.process, w1.stamp, (step v w1 .process).2⟩ ::
+            (run v (step v w1 .process).1 (poll n)).2) := rfl
+    rw [hrun]
+    simp only [pollStamps, List.filter_cons]
+    rw [redoStamps_cons_other _ _ (by simp), redoStamps_cons_process _ _ rfl]
+    have hx1 : w.stamp + 1 - s = (w.stamp - s) + 1 := by omega
+    by_cases hdue : (w.stamp - s) % e.redoTimeout + 1 = e.redoTimeout
+    · -- a full interval has elapsed at this tick
+      have hz : (w.stamp + 1 - s) % e.redoTimeout = 0 := by rw [hx1]; exact emod_succ_wrap _ _ hR hdue
+      have hR' : 0 < e.redoTimeout ∧ e.redoTimer.start + e.redoTimeout ≤ w1.stamp := by
+        refine ⟨hR, ?_⟩
+        have : w1.stamp = w.stamp + 1 := rfl
+        omega
+      have hs : step v w1 .process =
+          ({ w1 with ex := some { e with redoTimer := e.redoTimer.restart w1.stamp },
+                     queue := w1.queue ++ e.tx.toList }, ⟨e.tx.toList, none⟩) := by
+        simp [step, World.call, hw1, process_redo w1.stamp e hwf hnoT hR']
+      rw [hs]
+      have hq : (e.tx.toList ≠ []) := by rw [htx]; simp
+      rw [if_pos hq]
+      simp only [hz, beq_self_eq_true, if_true]
+      show w1.stamp :: _ = w1.stamp :: _
+      congr 1
+      have hwf' : WFr { e with redoTimer := e.redoTimer.restart w1.stamp } :=
+        ⟨by simpa [Timer.restart] using hwf.1, by simp [Timer.restart], hwf.2.2.1, hwf.2.2.2⟩
+      have := ih { w1 with ex := some { e with redoTimer := e.redoTimer.restart w1.stamp },
+                           queue := w1.queue ++ e.tx.toList }
+        { e with redoTimer := e.redoTimer.restart w1.stamp } rfl hwf' hR htx
+        (by show w1.stamp = w1.stamp - (w1.stamp - s) % e.redoTimeout
+            have : w1.stamp - s = w.stamp + 1 - s := rfl
+            rw [this, hz]; omega)
+        (by rcases hT with h | h
+            · exact Or.inl h
+            · right; show w.stamp + 1 + (n : Int) < e.timer.stop; push_cast at h; omega)
+      exact this
+    · -- not yet
+      have hlt2 : (w.stamp - s) % e.redoTimeout + 1 < e.redoTimeout := by omega
+      have hz : (w.stamp + 1 - s) % e.redoTimeout = (w.stamp - s) % e.redoTimeout + 1 := by
+        rw [hx1]; exact emod_succ_lt _ _ hR hlt2
+      have hR' : ¬ (0 < e.redoTimeout ∧ e.redoTimer.start + e.redoTimeout ≤ w1.stamp) := by
+        intro ⟨_, b⟩
+        have : w1.stamp = w.stamp + 1 := rfl
+        omega
+      have hs : step v w1 .process = ({ w1 with ex := some e, queue := w1.queue }, ⟨[], none⟩) := by
+        simp [step, World.call, hw1, process_idle w1.stamp e hwf hnoT hR']
+      rw [hs]
+      have hnz : ¬ ((w.stamp + 1 - s) % e.redoTimeout = 0) := by rw [hz]; omega
+      simp only [ne_eq, not_true_eq_false, if_false, beq_iff_eq, hnz]
+      have := ih { w1 with ex := some e, queue := w1.queue } e rfl hwf hR htx
+        (by show e.redoTimer.start = w1.stamp - (w1.stamp - s) % e.redoTimeout
+            have : w1.stamp - s = w.stamp + 1 - s := rfl
+            rw [this, hz, hst]
+            show _ = w.stamp + 1 - _; omega)
+        (by rcases hT with h | h
+            · exact Or.inl h
+            · right; show w.stamp + 1 + (n : Int) < e.timer.stop; push_cast at h; omega)
+      exact this
+
+
+/-- non-vacuity: redo interval 3 ticks started at 10, polled for 10 ticks: retransmits at 13, 16, 19 -/
+def pollDemo : Exch :=
+  { kind := Kind.exchanger, timeout := 0, timer := Timer.new 10 0, redoTimeout := 3, redoTimer := Timer.new 10 3, tx := some 7, rx := none, «done» := false, failed := false, acked := false }
+
+example : redoStamps (run .repaired ⟨10, some pollDemo, []⟩ (poll 10)).2 = [13, 16, 19] := by decide
+
+example : (pollStamps 10 10).filter (fun x => (x - 10) % 3 == 0) = [13, 16, 19] := by decide
+
 /-! ## a started exchanger -/
 
 /-- `Exchanger.start(m)` at time `s` queues `m` once, clears the flags, and leaves the timers well
